@@ -440,12 +440,24 @@ impl<T: Float + std::ops::AddAssign> Categorical<T> {
     }
 }
 
+#[cfg(feature = "verif")]
+impl<T: Float + std::ops::AddAssign> Categorical<T> {
+    /// Verification-only constructor: like [`Categorical::new`] but with a caller-supplied generator.
+    pub fn with_rng(probs: Vec<T>, rng: SmallRng) -> Self {
+        let mut out = Self::new(probs);
+        out.rng = rng;
+        out
+    }
+}
+
 impl<T: Float + std::ops::AddAssign> Discrete<T> for Categorical<T>
 where
     StandardUniform: rand::distr::Distribution<T>,
 {
     fn sample(&mut self) -> usize {
         let r: T = self.rng.random();
+        #[cfg(feature = "verif")]
+        let r: T = crate::verif::tap_scalar("categorical.r", r);
         let mut cum: T = T::zero();
         let mut k = self.probs.len() - 1;
         for (i, &p) in self.probs.iter().enumerate() {
